@@ -92,6 +92,9 @@ def run(ctx: core.Ctx):
     quick = ctx.tier == "quick"
     cases = monotone_cases(64) + pattern_cases(8 if quick else 10)
     n_exh = len(cases)
+    # the same monotone families with excess values a rounding error away from zero at and around the threshold
+    for kind, (counts, elo, ehi, cap, cont, mi) in monotone_cases(24):
+        cases.append((kind, (counts, elo, [v * 4e-7 for v in ehi], cap, cont, mi)))
     vals = [-2.0, -1.0, 0.0, 1.0, 2.0, -1.0, 1.0, 0.5, -0.5]
     for _ in range(2000 if quick else 20000):
         n = rng.randint(1, 14)
@@ -100,6 +103,10 @@ def run(ctx: core.Ctx):
             counts.sort()
         ehi = [rng.choice(vals) for _ in range(n)]
         elo = [rng.choice(vals) for _ in range(n)]
+        if rng.random() < 0.2:
+            # excess values a rounding error away from the limit (|excess| << sizing tolerance): the sign decides, not the size
+            sc = rng.choice([1e-7, 5e-7, 1e-9, 1e-12])
+            ehi, elo = [v * sc for v in ehi], [v * sc for v in elo]
         cases.append(("b1d", (counts, elo, ehi, rng.choice([None, 1, 2, 3, 5, 9, 100]), rng.random() < 0.5, rng.choice([0, 1, 2, 3, 15, 15]))))
     cases += searchlib.nested_cases(rng, 600 if quick else 6000)
     cases += searchlib.root_cases(rng, 300 if quick else 3000)
@@ -134,6 +141,7 @@ def run(ctx: core.Ctx):
         # ---- property predicate on the real outcome (independent of the model)
         if kind == "b1d":
             counts, elo, ehi, cap, cont, mi = args
+            searchlib.check_b1d_exchanger(ctx, args, out_r)
             check_b1d_predicate(ctx, idx < n_exh, counts, elo, ehi, cap, cont, mi, out_r, tr_r)
         elif kind in ("b2d", "bzd"):
             searchlib.check_nested_predicate(ctx, kind, args, out_r, tr_r)
